@@ -4,4 +4,10 @@ go 1.26
 
 require reservoir v0.0.0
 
+require (
+	github.com/shirou/gopsutil/v4 v4.26.1 // indirect
+	golang.org/x/crypto v0.48.0 // indirect
+	golang.org/x/sys v0.41.0 // indirect
+)
+
 replace reservoir => /repo
